@@ -1548,11 +1548,11 @@ class _Small(ast.NodeTransformer):
         rows = []
         for e in it.elts:
             vals = [e] if isinstance(tg, ast.Name) else (list(e.elts) if isinstance(e, ast.Tuple) and len(e.elts) == len(names) else None)
-            if vals is None or not all(isinstance(v, (ast.Constant, ast.Name)) for v in vals):
+            if vals is None or not all(isinstance(v, (ast.Constant, ast.Name)) or (_is_pure(v) and not any(isinstance(x, (ast.Call, ast.Lambda)) for x in ast.walk(v))) for v in vals):
                 return None
             rows.append(vals)
         stored = {x.id for b in n.body for x in ast.walk(b) if isinstance(x, ast.Name) and isinstance(x.ctx, (ast.Store, ast.Del))}
-        used = {v.id for r in rows for v in r if isinstance(v, ast.Name)}
+        used = {x.id for r in rows for v in r for x in ast.walk(v) if isinstance(x, ast.Name)}
         if (stored & (set(names) | used)) or any(isinstance(x, (ast.Break, ast.Continue, ast.FunctionDef, ast.Lambda)) for b in n.body for x in ast.walk(b)):
             return None
         # locals that live only inside the loop body belong to one copy of it
